@@ -16,9 +16,9 @@ for patch in $DIR/*.diff; do
   git -C /repo worktree add -q --detach $S HEAD || exit 2
   if ! git -C $S apply $patch 2>/tmp/apply.err; then echo "$name: PATCH DOES NOT APPLY: $(head -1 /tmp/apply.err)"; git -C /repo worktree remove --force $S; continue; fi
   if [ -n "${SKIP_TESTS:-}" ]; then tests=skipped; elif (cd $S && go build ./... >/dev/null 2>&1 && go test -vet=off -count=1 ./... >/tmp/mut-test.log 2>&1); then tests=pass; else tests=FAIL; fi
-  VERIF_REPO=$S VERIF_OUT=$OUT /verif/check $id quick > $OUT/log 2>&1; rc=$?
+  VERIF_REPO=$S VERIF_OUT=$OUT ${VERIF_DIR:-/verif}/check $id quick > $OUT/log 2>&1; rc=$?
   nv=$(grep -c '^VIOLATION' $OUT/log)
   if [ $rc -eq 1 ] && [ $nv -gt 0 ]; then verdict=detected; else verdict="MISSED(rc=$rc)"; fi
   echo "$name: property=$id repo-tests=$tests check=$verdict violations=$nv  $(grep -m1 'signature:' $OUT/log | cut -c1-150)"
-  git -C /repo worktree remove --force $S; T=$(echo "$S" | md5sum | cut -c1-10); rm -rf $OUT /verif/.bin/gotsmc-$T /verif/.bin/alt-$T.mod
+  git -C /repo worktree remove --force $S; T=$(echo "$S" | md5sum | cut -c1-10); rm -rf $OUT ${VERIF_DIR:-/verif}/.bin/gotsmc-$T ${VERIF_DIR:-/verif}/.bin/alt-$T.mod
 done
